@@ -131,6 +131,13 @@ func (b *Bus) nRead(bank byte, addr uint16) uint8 {
 	return b.M
 }
 
+// nPeek reads like nRead but leaves the open-bus latch M alone; for observers
+// (the disassembler) that must not influence what the CPU reads next.
+func (b *Bus) nPeek(bank byte, addr uint16) uint8 {
+	ea := uint32(bank)<<16 | uint32(addr)
+	return b.Read[ea>>4](ea)
+}
+
 func (b *Bus) nRead16_wrap(bank byte, addr uint16) uint16 {
 	bank32 := uint32(bank) << 16
 
